@@ -31,7 +31,7 @@ def Cmd.text : Cmd → Str
   | .setVar k v => sExport ++ [32] ++ k ++ [61] ++ emitVal v
   | .unsetVar k => sUnset ++ [32] ++ k
   | .aliasDef k v => k ++ [40, 41, 32, 123, 32] ++ v ++ [32, 59, 32, 125]
-  | .aliasDel k => sUnset ++ [32] ++ k
+  | .aliasDel k => sUnset ++ [32] ++ sDashF ++ [32] ++ k
 
 /-- commands whose evaluation `shEval` covers -/
 def Cmd.Good : Cmd → Prop
@@ -230,10 +230,13 @@ theorem exec_export (env : Env) (k v : Str) (hk : isIdent k = true) :
     exec env [sExport, k ++ 61 :: v] = some (env.set k v) := by
   simp [exec, exportArg, splitEq_ident k v (ident_no_eq hk), hk]
 
+theorem ident_ne_dashF {k : Str} (hk : isIdent k = true) : k ≠ sDashF := by
+  intro e; subst e; revert hk; decide
+
 theorem exec_unset (env : Env) (k : Str) (hk : isIdent k = true) :
     exec env [sUnset, k] = some (env.unset k) := by
   have : (sUnset == sExport) = false := by decide
-  simp [exec, this, unsetArg, hk]
+  simp [exec, this, unsetArg, hk, ident_ne_dashF hk]
 
 /-- a good command leaves the reader with two words whose execution is the command's effect -/
 theorem feed_good (env : Env) (c : Cmd) (h : c.Good) :
@@ -541,6 +544,9 @@ theorem tracks_run (base : Env) (a : Act) (s : SetupSt) (h : Tracks s.old base) 
     · exact h
     · exact tracks_forget h k
   | unset k => exact h
+  | alias f d k v =>
+    simp only [Act.run, aliasAct]
+    split <;> exact h
 
 theorem tracks_runActs (acts : List Act) (base : Env) : Tracks (runActs false acts base).old base := by
   have : ∀ (s : SetupSt), Tracks s.old base → Tracks (acts.foldl (fun s a => a.run false s) s).old base := by
@@ -641,8 +647,12 @@ theorem exec_inv (env e : Env) (args : List Str) (ha : ∀ w ∈ args, NoMeta w)
       · exact foldlM_inv (fun e => e.get k ≠ some v) exportArg r env e
           (fun x hx e1 e2 hp1 hx1 => exportArg_inv k v hm e1 e2 x (ha x (by simp [hx])) hp1 hx1) hp h
     · split at h
-      · exact foldlM_inv (fun e => e.get k ≠ some v) unsetArg r env e
-          (fun x _ e1 e2 hp1 hx1 => unsetArg_inv k v e1 e2 x hp1 hx1) hp h
+      · split at h
+        · split at h
+          · cases h; exact hp
+          · cases h
+        · exact foldlM_inv (fun e => e.get k ≠ some v) unsetArg r env e
+            (fun x _ e1 e2 hp1 hx1 => unsetArg_inv k v e1 e2 x hp1 hx1) hp h
       · split at h
         · cases h; exact hp
         · cases h
